@@ -8,10 +8,10 @@ TECH_CHOICE = "deviation-bounded stateless exploration of environment choice poi
 
 ENTRIES = {
  "C01": dict(cat="exploration", engine="sweep", tech=TECH_SWEEP,
-  text="Bounded exhaustive exploration of the real Curve2/Curve3 station code: every lattice vertex sequence up to the length bound x closure x scale x tolerance, every critical arc length (incl. +-1 ulp), compared with a linear-scan reference model. No execution in the enumerated space violates the property.",
+  text="Bounded exhaustive exploration of the real Curve2/Curve3 station code: every lattice vertex sequence up to the length bound x closure x scale x tolerance (0, 1e-9, 1 and 1.5 lattice steps, so closing gaps exactly equal to the tolerance occur), every critical arc length (incl. +-1 ulp), compared with a linear-scan reference model; closedness itself is judged on the stored end vertices. No execution in the enumerated space violates the property.",
   note="Small-scope hypothesis (local index/branch rules fail on small instances); tolerances 1e-9*extent / 16 ulp of L; direction at exactly reversing vertices is undefined by the statement and counted as gray."),
  "C02": dict(cat="exploration", engine="sweep", tech=TECH_SWEEP,
-  text="Every small lattice curve (2D/3D) and 105 structured large polylines (5..5000 edges, every QBVH occupancy/depth) x query grids, all 1024 small height-field meshes + 4 solids x query grid x distance caps x angle limits, each answer compared with brute force over every edge/face (distance, point, index/fraction or face/barycentric location, normal, cap and angle filters).",
+  text="Every small lattice curve (2D/3D) and 105 structured large polylines (5..5000 edges, every QBVH occupancy/depth) x query grids, all 1024 small height-field meshes + 4 solids x query grid (incl. points 1e-7 .. 3e-4 off the surface) x distance caps x angle limits x {no transform, two transforms}, each answer compared with brute force over every edge/face (distance, point, index/fraction or face/barycentric location, normal, cap and angle filters).",
   note="Ties: any minimiser accepted; gray zones at distance == cap, zero offset, angle on the acceptance boundary; inside queries only on non-solid meshes (is_solid is inert for Mesh::new)."),
  "C03": dict(cat="exploration", engine="sweep", tech=TECH_SWEEP + " (metamorphic oracle: f(Tx)=f(x), g(Tx)=T g(x))",
   text="Every entity of a finite menu (lattice curves, 16 meshes, 120 planes, surface points, segments, point clouds, distances) x the full isometry menu (24 in 2D, 93 in 3D, translations up to 1e3) x query grids; invariance of scalars, equivariance of geometric results, inverse and composition clauses.",
@@ -32,27 +32,27 @@ ENTRIES = {
   text="Every Euler triple of an 18-value alphabet (incl. pitch within 1e-9..1e-3 of +-pi/2) x translations x rotation centres up to 1e3 for the rotation-centred parameter objects (3 updates each against the independent formula), Euler derivative matrices, isometry<->parameter round trips, every entry of the four analytic Jacobians against central finite differences on lattice probes, ParamHandler layouts.",
   note="Jacobian tolerance 1e-5*lever (h=1e-6), residual kinks skipped; reproduction tolerance 1e-9*(1+|t|+|rc|)."),
  "C09": dict(cat="exploration", engine="sweep, bfs", tech=TECH_SWEEP + "; CircleFit: all set_params histories <= 3 vs fresh problem",
-  text="Polynomial fits K=2..6: coefficient vectors from a 5-value alphabet x 5 abscissa sets (asymmetric, one-sided, clustered, offset, symmetric) x sizes x weight patterns for exact recovery, arbitrary ordinates for the orthogonality (normal-equation) clause, best_fit_line vs degree 1; circle fits over centres x radii x arc extents x guesses x modes, stationarity on perturbed data, CircleFit history independence, every lattice triple for the three-point circle, seeded RANSAC on contaminated sets.",
-  note="Recovery tolerance scales with the condition number of the normal matrix (explicit inverse); cond > 1e8 skipped and counted; the three-point collinearity band |det| < 1e-3 is gray when rejected."),
+  text="Polynomial fits K=2..6: coefficient vectors from a 5-value alphabet x 5 abscissa sets (asymmetric, one-sided, clustered, offset, symmetric) x sizes x weight patterns for exact recovery, arbitrary ordinates for the orthogonality (normal-equation) clause, best_fit_line vs degree 1; circle fits over centres x radii x arc extents x guesses x modes, stationarity on perturbed data, CircleFit history independence, every lattice triple for the three-point circle at six scales, seeded RANSAC on contaminated sets.",
+  note="Recovery tolerance scales with the condition number of the normal matrix (explicit inverse); cond > 1e8 skipped and counted; three-point circles: collinearity decided exactly on the lattice indices at six scales (1e-5 .. 1e4); the CircleFit fresh problem is constructed at the last parameters."),
  "C10": dict(cat="exploration", engine="sweep", tech="exhaustive enumeration of a finite configuration space (edge locators x orientation methods x face modes) over generated section families with closed-form medial axes, each configuration executed in 16 pose / vertex-order / start-vertex variants under iteration budgets",
-  text="Every configuration {TMaxFwd, DirectionFwd} x applicable edge locators x {detected, given} face orientation on envelope-of-circles sections (known camber curve and radius law), ellipses (focal-segment medial axis), open sections and sharp-cornered sections: every station is inscribed with contacts on the section on opposite sides, stations monotone, edges on the section at the camber ends, surfaces partition the perimeter on the right side, centres and radii recover the closed form (t_max, gauges), all 16 variants agree, and every run ends within its tick budget.",
+  text="Every configuration {TMaxFwd, DirectionFwd} x applicable edge locators x {detected, given} face orientation on envelope-of-circles sections (known camber curve and radius law), ellipses (focal-segment medial axis), open sections (square and skewed cuts) and sharp-cornered sections, chords from 0.3 to 100: every station is inscribed with contacts on the section on opposite sides, stations monotone, edges on the section at the camber ends, surfaces partition the perimeter on the right side, centres and radii recover the closed form (t_max, gauges), all 16 variants agree, envelope sections are accepted by every closed-section edge method, and every run ends within its tick budget.",
   note="Recorded finding: ConvergeTangentEdge on the 5x1.5 ellipse depends on vertex order. Sections outside the generated families and locators on families they are not defined for are not claimed; tolerances in units of the analysis tolerance and sampling step."),
  "C11": dict(cat="exploration", engine="sweep", tech=TECH_SWEEP,
-  text="Circle pairs in all six regimes x radii x 13 directions x offsets; tangent points from 6 distance ratios; outer tangents; lines/segments through a grid of origins; lattice curves against circles; arcs over centres x radii x 30 start angles (k*pi/2 +- 1e-9) x 12 signed sweeps; three-point arcs from every lattice triple at 3 scales: every defining constraint checked (on both objects, counts, perpendicularity, order, start/through/end, length/fraction agreement, cached box contains and touches).",
+  text="Circle pairs in all six regimes x radii x 13 directions x offsets; tangent points from 6 distance ratios; outer tangents; lines/segments through a grid of origins; every ordered pair of points of a 13x13 integer lattice as a segment against integer circles with the count decided in exact integer arithmetic; lattice curves against circles; arcs over centres x radii x 30 start angles (k*pi/2 +- 1e-9) x 12 signed sweeps; three-point arcs from every lattice triple at 3 scales and 2 offsets (collinearity decided exactly): every defining constraint checked (on both objects, counts, perpendicularity, order, start/through/end, length/fraction agreement, cached box contains and touches).",
   note="Recorded finding: equal-radius outer tangents come (right, left), pinned by a repository test. Exact tangency demanded only along exactly representable directions."),
  "C12": dict(cat="model_checking", engine="sweep, choice", tech=TECH_CHOICE + " over an exhaustive enumeration of all small inputs",
   text="All face lists of <= 4 oriented triangles over 5 vertices and <= 4 (thorough 5) over 6, structured meshes with every single face flipped, every subset of <= 5 voxels of a 2x2x3 block, every ordered list of <= 4 index pairs, box/cylinder generators; for every mesh and voxel set every hash-map/set traversal is a choice point and all executions with <= 2 non-default iteration orders are explored; union-find / multiset references; termination decided by deterministic tick budgets.",
   note="Orders beyond 4 elements are represented by rotations and reversals of the sorted order; at most 2 deviations per execution."),
- "C13": dict(cat="exploration", engine="sweep + subprocess workers", tech=TECH_SWEEP + "; the allocation-unsafe input class is classified by the reference and probed by representatives in memory-limited subprocesses",
-  text="17 meshes (boxes, prisms, capped cylinders, subdivided spheres, torus, tetrahedron, open tube, quad, height fields) x 3-5 poses x 32 plane normals x 6 offsets: section vertices on plane and surface, consecutive vertices share a face, each crossing face used once, closed loops on watertight meshes, one loop on convex solids, total length equals the reference crossing segments, split sides and areas, commutation with rigid motion.",
+ "C13": dict(cat="exploration", engine="sweep + subprocess workers", tech=TECH_SWEEP + "; every case is executed in worker processes limited to 3 GB of address space with a per-case watchdog (a case that takes its worker down is reported, the rest of the chunk re-run); the known allocation-unsafe input class is classified by the reference and probed by representatives first",
+  text="17 meshes (boxes, prisms, capped cylinders, subdivided spheres, torus, tetrahedron, open tube, quad, height fields) x 3-5 poses x 32 plane normals x 9 offsets x curve tolerance {default, 5e-3, 0.05}: section vertices on plane and surface, consecutive vertices share a face, each crossing face used once, closed loops on watertight meshes, one loop on convex solids, total length equals the reference crossing segments, split sides and areas, commutation with rigid motion.",
   note="Recorded finding: Mesh::section never returns (unbounded allocation inside parry) when the section polyline is open; that class is probed by 3 representatives under ulimit -v 2 GB and executed fully only if they return. Planes within 1e-5 of a vertex are degenerate probes."),
  "C14": dict(cat="model_checking", engine="bfs, choice", tech=TECH_BFS + "; every transition under " + TECH_CHOICE,
-  text="State space of selections over a tetrahedron, a two-normal roof and an octahedron (closure reached in the thorough tier: 288 states) x {Add, Remove, Keep} x 93 criteria (facing; near-mesh with all tolerance combinations); each transition and each create_mesh executed under all set-iteration orders with <= 2 deviations; next state must equal S u P / S \\ P / S n P with P computed independently from the geometry and by the code in a canonical context.",
+  text="State space of selections over a tetrahedron, a two-normal roof, an octahedron and the roof with an extra zero-area face (closure reached in the thorough tier) x {Add, Remove, Keep} x 93 criteria (facing; near-mesh with all tolerance combinations); each transition and each create_mesh executed under all set-iteration orders with <= 2 deviations; next state must equal S u P / S \\ P / S n P with P computed independently from the geometry and by the code in a canonical context.",
   note="Independent geometric predicate only where the reference normal is unambiguous (plane references); elsewhere the canonical-context predicate is the oracle."),
  "C15": dict(cat="exploration", engine="sweep, choice", tech=TECH_SWEEP + "; samplers: " + TECH_CHOICE,
   text="kd-trees over every multiset of <= 4 lattice points (2D) / <= 3 (3D), structured and gridded sets, partial trees over every ordered subset; Poisson disk over every ordering of every subset; hulls of every lattice subset; every simple lattice polygon for order detection, from_points_ccw and ball pivot; mesh samplers with the RNG answered by the explorer (all 216 draw triples, shuffles with <= 2 non-default draws).",
   note="Recorded finding: kiddo's immutable kd-tree returns wrong items for > 32 points with tied coordinates (inherited by Mesh::sample_poisson). Ties exactly on the k-th neighbour / radius boundary are gray; statistical uniformity is not claimed."),
- "C16": dict(cat="model_checking", engine="bfs, sweep", tech=TECH_BFS + "; plus " + TECH_SWEEP,
+ "C16": dict(cat="model_checking", engine="bfs, sweep, stateright", tech=TECH_BFS + "; the deviation-set machine is explored a second time by stateright 0.31 (independent explicit-state checker on the same real code) and the unique-state counts must agree; plus " + TECH_SWEEP,
   text="State-space search of SurfaceDeviationSet (all push histories <= 5 over a tie-producing alphabet from default() and new(v)) and PointCloud (append/merge/select histories, rejected operations must change nothing) against Vec models, with from-scratch comparison on every state; exhaustive sweeps of curve and mesh deviations (sign, magnitude, reconstruction), directed distances and every small tolerance table.",
   note="Deviation sign judged only where the offset has a non-zero normal component; plane-mode value at mesh edges may use any adjacent face (C03 finding)."),
  "C17": dict(cat="model_checking", engine="bfs, sweep", tech=TECH_BFS + "; plus " + TECH_SWEEP,
@@ -65,7 +65,7 @@ ENTRIES = {
   text="Every ordered pair of the 124 non-zero vectors of {-2..2}^3 x 6 two-vector frame constructors x origins; basis-to-isometry builders over every exact signed-permutation rotation (all exact half turns) and oblique half turns; principal axes of every multiset of 4-5 points of the 3x3x3 lattice (generic, planar, collinear, coincident) x 5 weightings with centre, orthonormality, order, variance, rank, round-trip, equivariance and weight-scaling clauses; planes from every lattice triple.",
   note="Axes compared per axis up to sign where singular values are separated; weighted singular values carry no variance meaning."),
  "C20": dict(cat="exploration", engine="sweep", tech=TECH_SWEEP,
-  text="Planar grid disks up to 4x3 (thorough 4x4) with every diagonal assignment, removed corner cells, displaced interior vertices, fans; every vertex relabelling for <= 6 vertices; 5 poses: finite positions, edge lengths preserved, positive orientation and area, pose invariance; curved disks for the invariance clause; six non-disk inputs rejected; UV round trips at 4 barycentric points of every face.",
+  text="Planar grid disks up to 4x3 (thorough 4x4) with every diagonal assignment, removed corner cells, displaced interior vertices, fans; every vertex relabelling for <= 6 vertices; 5 poses: finite positions, edge lengths preserved, positive orientation and area, pose invariance; curved disks for the invariance clause; six non-disk inputs rejected; UV round trips at 4 barycentric points of every face through the flattener's own and hand-built sheared / mirrored maps, with and without a transform argument.",
   note="Edge lengths at 1e-6 relative (regulariser 1e-8)."),
 }
 
